@@ -274,12 +274,21 @@ class Roles:
         # connection closures: closures handed to the submit function from the accept loop
         self.connection_closures = set()
         for al in self.accept_loops:
-            fn = F.fns[al]
-            for bid, t in fn.calls():
-                if callee_name(t) in G.boxing_generic or t.get("callee") in G.boxing_generic:
-                    for x in t.get("fn_items", []):
-                        if x in F.fns and F.fns[x].kind == "Closure":
-                            self.connection_closures.add(x)
+            # the submit call may sit in a closure of the accept function (`incoming().for_each(|c| pool.execute(move || ..))`) or in a
+            # private helper it calls (`submit(&pool, connection)`)
+            family = [al] + [n for n in F.fns if n.startswith(al + "::{closure")]
+            for e in G.out.get(al, []):
+                g_ = F.fns.get(e.dst)
+                if g_ is not None and g_.crate == "rws" and e.kind == "call" and (g_.vis or "").startswith("Restricted") and e.dst not in family:
+                    family.append(e.dst)
+                    family += [n for n in F.fns if n.startswith(e.dst + "::{closure")]
+            for fname in family:
+                fn = F.fns[fname]
+                for bid, t in fn.calls():
+                    if callee_name(t) in G.boxing_generic or t.get("callee") in G.boxing_generic:
+                        for x in t.get("fn_items", []):
+                            if x in F.fns and F.fns[x].kind == "Closure":
+                                self.connection_closures.add(x)
         self.connection_closures = sorted(self.connection_closures)
         if not self.connection_closures:
             self.errors.append("anchor-missing: per-connection closure (closure submitted to the pool by the accept loop)")
@@ -302,6 +311,16 @@ class Roles:
             if not generic_rw:
                 continue
             sub = G.reachable([fn.def_], kinds=("call", "trait-cha"))
+            # ... and through the closures those functions build (`outcome.and_then(|_| deliver(stream, ..))`)
+            grew = True
+            while grew:
+                grew = False
+                for x in list(sub):
+                    for e in G.out.get(x, []):
+                        if e.kind == "mentions" and e.dst in F.fns and F.fns[e.dst].kind == "Closure" and e.dst not in sub:
+                            more = G.reachable([e.dst], kinds=("call", "trait-cha"))
+                            sub = set(sub) | set(more) | {e.dst}
+                            grew = True
             reads = any(x in self.transport_helpers and touches(F.fns[x], "std::io::Read::read") for x in sub if x in F.fns)
             writes = any(x in self.transport_helpers and touches(F.fns[x], "std::io::Write::write") for x in sub if x in F.fns)
             if reads and writes:
